@@ -118,6 +118,24 @@ func checkC17(c *ev.Ctx) {
 		}
 		cases = append(cases, k)
 	}
+	// amounts beyond a few MiB: what a writer learns or counts over many chunks (heuristics
+	// for incompressible data, statistics, counters) must not spoil a later far repetition
+	bigs := []ratioCase{
+		{ID: "big-xx-7M", Kind: "xx", Writer: "xz", N: 7 << 20, DictCap: 8 << 20},
+		{ID: "big-run-48M", Kind: "run", Writer: "lzma2", N: 48 << 20, Byte: 0x55, DictCap: 8 << 20},
+	}
+	if thorough(c) {
+		bigs = append(bigs,
+			ratioCase{ID: "big-xx-8M", Kind: "xx", Writer: "lzma2", N: 8 << 20, DictCap: 8 << 20},
+			ratioCase{ID: "big-xx-12M", Kind: "xx", Writer: "xz", N: 12 << 20, DictCap: 16 << 20},
+			ratioCase{ID: "big-xx-3M-bt", Kind: "xx", Writer: "xz", N: 3 << 20, DictCap: 4 << 20, Matcher: 1},
+			ratioCase{ID: "big-random-24M", Kind: "random", Writer: "xz", N: 24 << 20, DictCap: 8 << 20},
+			ratioCase{ID: "big-run-200M", Kind: "run", Writer: "xz", N: 200 << 20, Byte: 0, DictCap: 1 << 20})
+	}
+	for _, k := range bigs {
+		k.LC, k.LP, k.PB, k.BufSize, k.Seed = 3, 0, 2, 4096, r.U64()|3
+		cases = append(cases, k)
+	}
 	c.MinEvals(int64(n / 2))
 	var fracMu sync.Mutex
 	maxFrac := map[string]float64{}
